@@ -67,18 +67,21 @@ W_RUN = "RunNeverRaises content-missing"
 
 
 def model_check(ctx: Ctx) -> None:
-    common = dict(**U, bytes_=[1, 2, 3], mtimes=[1, 2], classes=fv.ALL_CLS, max_objs=0)
+    common = dict(**U, mtimes=[1, 2], classes=fv.ALL_CLS, max_objs=0)
     if ctx.quick:
-        plan = [("as-built", ("bare", "list"), 3), ("as-built", ("bare",), 4), ("repaired", ("bare", "list"), 3)]
+        plan = [("as-built", ("bare", "list"), [2, 3], 3), ("as-built", ("bare",), [1, 2, 3], 4),
+                ("repaired", ("bare",), [1, 2, 3], 4)]
     else:
-        plan = [("as-built", ("bare", "list"), 4), ("as-built", ("bare",), 5), ("repaired", ("bare", "list"), 4)]
+        plan = [("as-built", ("bare", "list"), [1, 2, 3], 4), ("as-built", ("bare",), [1, 2, 3], 5),
+                ("repaired", ("bare", "list"), [1, 2, 3], 4)]
     runs = []
+    timing: list = []
     witnesses: set = set()
-    for kind, shapes, depth in plan:
+    for kind, shapes, bts, depth in plan:
         ab = kind == "as-built"
-        cfg = fv.cfg_text("SpecRuns", **common, max_ops=depth, shapes=shapes, dev_cm=ab, dev_dc=ab,
+        cfg = fv.cfg_text("SpecRuns", **common, bytes_=bts, max_ops=depth, shapes=shapes, dev_cm=ab, dev_dc=ab,
                           invariants=AS_BUILT if ab else REPAIRED, properties=["ExecCounts"])
-        what = f"{kind} shapes={list(shapes)} steps<={depth}"
+        what = f"{kind} shapes={list(shapes)} bytes={bts} steps<={depth}"
         res = expect_clean(run_tlc("seq/FileValues.tla", cfg, ctx.scratch, workers=8, timeout=2400, heap="8g"),
                            f"FileValues.tla runs {what}")
         ctx.add_tlc(res)
@@ -87,7 +90,9 @@ def model_check(ctx: Ctx) -> None:
         else:
             ctx.require(not res.recs("WITNESS"), "the repaired model printed a control witness")
         runs.append(f"{what}: {res.distinct} states, {res.generated} transitions")
+        timing.append(round(res.wall_s, 1))
     ctx.note("model_runs", runs)
+    ctx.note("model_run_seconds", timing)
     ctx.negative_control(W_RUN in witnesses,
                          "model control: RunNeverRaises fails in the as-built model (through DevContentMissing; "
                          "RunRaisesOnlyThroughDev holds in the same runs, RunNeverRaises in the repaired ones)")
@@ -127,8 +132,16 @@ def run(ctx: Ctx) -> None:
     fv.install_controlled_fs()
     fv.quiet_redun()
 
+    phases: dict = {}
+
+    def mark(name: str, _t=[ctx.elapsed()]) -> None:
+        phases[name] = round(ctx.elapsed() - _t[0], 1)
+        _t[0] = ctx.elapsed()
+        ctx.note("phase_seconds", phases)
+
     # ---- 1. model checking ------------------------------------------------------------------
     model_check(ctx)
+    mark("model_check")
 
     # ---- 2. which deviations does this tree have? ---------------------------------------------
     dev = fv.probe_deviations(ctx.scratch)
@@ -148,9 +161,11 @@ def run(ctx: Ctx) -> None:
     ctx.add_tlc(g)
     behs = sorted(g.recs("BEH"), key=lambda b: fv.json.dumps(b, sort_keys=True))
     ctx.require(len(behs) >= 500, f"too few histories from TLC: {len(behs)}")
+    mark("tree_tlc")
     if ctx.quick:   # every class and every change, one of the two run times for the first run
         behs = [b for b in behs if b["steps"][0]["op"]["m"] == 1]
     replay_all(ctx, rep, lab, behs, "tree3", stats)
+    mark("tree_replay")
     ctx.sample({"source": "tlc-exhaustive", "wf": behs[len(behs) // 3]["wf"],
                 "ops": [s["op"] for s in behs[len(behs) // 3]["steps"]]})
 
@@ -165,7 +180,9 @@ def run(ctx: Ctx) -> None:
     ctx.add_tlc(sres)
     sbehs = sres.recs("BEH")
     ctx.require(len(sbehs) >= nsim // 2, f"too few simulated histories: {len(sbehs)}")
+    mark("sim_tlc")
     replay_all(ctx, rep, lab, sbehs, f"sim{depth}", stats, shapes=("list", "dict"))
+    mark("sim_replay")
     ctx.sample({"source": "tlc-simulate", "wf": sbehs[0]["wf"], "ops": [s["op"] for s in sbehs[0]["steps"]]})
     ctx.note("replay_stats", stats)
 
@@ -179,6 +196,8 @@ def run(ctx: Ctx) -> None:
                                   tu["bytes_"], tu["mtimes"], fv.ALL_CLS, ("bare", "list", "dict"))
         fv.cleanup_root(root)
         traces.append(tr)
+    mark("record_traces")
+
     # negative controls: a re-execution recorded as a replay; an execution count off by one
     def second_exec(t):
         seen = 0
@@ -209,6 +228,7 @@ def run(ctx: Ctx) -> None:
                                         invariants=["RunRaisesOnlyThroughDev", "ReplayIffValid",
                                                     "RaiseOnlyWhenInvalid", "ResultReflects"],
                                         properties=["TExecCounts"])
+    mark("trace_tlc")
     ctx.require(len(verdicts) == len(allt), f"verdicts {len(verdicts)} != traces {len(allt)}")
     nontriv = 0
     for tid in range(1, len(traces) + 1):
